@@ -31,7 +31,7 @@ def run(rep, tier, seed, replay_file=None):
 
     # 2. the option x kind matrix: Classify refines Contract (TLC), every cell replayed on the real
     #    recover wrappers + CanContinueOnError
-    gens = cf.ThreadPoolExecutor(max_workers=5)
+    gens = cf.ThreadPoolExecutor(max_workers=6)
     f_cells = gens.submit(L.cells, rep)
     # 3. model -> code: controllable schedules with what the property allows
     f_behs = gens.submit(L.gen, rep, "Ctl_wg_matrix.cfg", "option x kind x collector matrix on every construct (k=1, n=3, failure at any position)")
@@ -41,9 +41,14 @@ def run(rep, tier, seed, replay_file=None):
     f_edge2 = None if quick else gens.submit(
         L.gen, rep, "Ctl_wg_edge_full.cfg", "the same for all five constructs, n<=5, five failure kinds (a seeded sample is replayed)", timeout=1500)
     f_abort = gens.submit(L.gen, rep, "Ctl_wg_abort.cfg", "abort mode with inputs long enough (n >= 2k+1) for 'k more items' and 'the rest of the input' to differ")
+    f_cancel = gens.submit(L.gen, rep, "Ctl_wg_cancel.cfg", "the caller cancels its context / the consumer closes the output while user "
+                           "functions are held; the held ones then fail (err, wrapped, panicErr): still reported, and Run of a worker group waits")
     f_sim = gens.submit(L.gen, rep, "Ctl_wg_sim.cfg", "random schedules n <= 8, k <= 4", simulate=dict(num=150 if quick else 4000), depth=16, seed=seed)
     binary = harness.build(L.BINARY)
     cells, behs, edge, abort, sim = f_cells.result(), f_behs.result(), f_edge.result(), f_abort.result(), f_sim.result()
+    cancel = [b for b in f_cancel.result() if any(st["op"] == "cancel" for st in b["steps"])]
+    cancel_class = lambda b: (b["cfg"]["c"], [st["arg"] for st in b["steps"] if st["op"] == "cancel"][0], bool(b["cfg"]["faults"]))
+    cancel = L.stratified_by(cancel, cancel_class, 30 if quick else 800, seed)
     if quick:
         # the matrix: every (construct, failure kind) class is represented (5 x 15 classes, 14 cells each)
         behs, edge = L.stratified_by(behs, L.fault_class, 14, seed), L.sample(edge, 800, seed)
@@ -54,7 +59,7 @@ def run(rep, tier, seed, replay_file=None):
         rep.cov["exhaustive"] = True
         edge = edge + L.sample(f_edge2.result(), 12000, seed)
     gens.shutdown()
-    behs = replay.dedupe(behs + edge + abort + sim)
+    behs = replay.dedupe(behs + edge + abort + cancel + sim)
     if not cells or not behs:
         f_impl.result(); f_muts.result()
         return
@@ -102,6 +107,7 @@ def run(rep, tier, seed, replay_file=None):
         "samples) replayed with gated user functions that return / panic as scripted; after every step the real construct runs "
         "to quiescence; at the end the errors.Is table of the result (returned error / Close()) is compared with what the spec "
         "allows for the failures that occurred (must be found / never found / nil iff), items processed at most once, exactly "
-        "once in continue mode, and in abort mode: the failing worker takes no further item and at most k items are started "
+        "once in continue mode; after a cancellation by the caller / a Close by the consumer while user functions are held the Run of a "
+        "worker group is still blocked and the failures those functions then return are still reported; in abort mode: the failing worker takes no further item and at most k items are started "
         "after the failing user function returned.  histories = every accepted replay plus free-running runs, validated by TLC "
         "against WgErrTrace.  non-trivial = at least one failing item or a release while others are held")
